@@ -73,6 +73,19 @@ Check (new_inv : forall b n z, new b n = Some z ->
         else if hd_is is_slash (skipn (authority_end p) b) then (sl, authority_end p + 1)
         else (sl, authority_end p))).
 
+(* (4) round 4: relativize compares bytes.  Whenever a reference is returned the IRI starts with the
+       scheme and the authority of the base byte for byte; an IRI whose scheme (or authority) differs
+       from the base's in ANY way -- letter case included, although such IRIs are equivalent under
+       RFC 3986 section 6.2.2.1 -- gets nothing (never a reference resolving to a merely equivalent IRI) *)
+Check (relativize_some_shares_root : forall b n i r, relativize b n i = Ret (Some r) -> shares_root b i = true).
+Check (relativize_root_differs_none : forall b n i, shares_root b i = false -> relativize b n i = Ret None).
+Check (relativize_scheme_differs_none : forall b n i p,
+  positions_of b = Some p -> firstn (scheme_end p) i <> firstn (scheme_end p) b -> relativize b n i = Ret None).
+Check (relativize_authority_differs_none : forall b n i p,
+  positions_of b = Some p -> firstn (authority_end p) i <> firstn (authority_end p) b -> relativize b n i = Ret None).
+(* the components oxiri reports for the base (read by Relativizer::new) recompose to the base *)
+Check (components_recompose : forall b p, positions_of b = Some p -> ox_recompose b p = b).
+
 (* non-vacuity: validity predicate and the unit-test table of relativize.rs *)
 Definition s_base1 : str := [104; 116; 116; 112; 58; 47; 47; 97; 47; 98; 47; 99; 47; 100; 63; 101; 35; 102; 63; 103]%N.  (* http://a/b/c/d?e#f?g *)
 Example ex_abs_iri : abs_iri s_base1 = true. Proof. reflexivity. Qed.
@@ -115,6 +128,17 @@ Example ex_rfc_class : rfc_class s_base1 [46; 46; 47; 80; 49]%N = true
   /\ resolve_rfc s_base1 [46; 46; 47; 80; 49]%N = [104; 116; 116; 112; 58; 47; 47; 97; 47; 98; 47; 80; 49]%N.
 Proof. split; vm_compute; reflexivity. Qed.
 
+(* http://example.org/a/b vs HTTP://example.org/a/c: equal schemes up to letter case, nothing returned *)
+Example ex_scheme_case :
+  case_variant [104; 116; 116; 112; 58]%N [72; 84; 84; 80; 58]%N = true
+  /\ shares_root [104; 116; 116; 112; 58; 47; 47; 101; 120; 97; 109; 112; 108; 101; 46; 111; 114; 103; 47; 97; 47; 98]%N [72; 84; 84; 80; 58; 47; 47; 101; 120; 97; 109; 112; 108; 101; 46; 111; 114; 103; 47; 97; 47; 99]%N = false
+  /\ relativize [104; 116; 116; 112; 58; 47; 47; 101; 120; 97; 109; 112; 108; 101; 46; 111; 114; 103; 47; 97; 47; 98]%N 1 [72; 84; 84; 80; 58; 47; 47; 101; 120; 97; 109; 112; 108; 101; 46; 111; 114; 103; 47; 97; 47; 99]%N = Ret None
+  /\ relativize [104; 116; 116; 112; 58; 47; 47; 101; 120; 97; 109; 112; 108; 101; 46; 111; 114; 103; 47; 97; 47; 98]%N 1 [104; 116; 116; 112; 58; 47; 47; 101; 120; 97; 109; 112; 108; 101; 46; 111; 114; 103; 47; 97; 47; 99]%N = Ret (Some [99]%N).
+Proof. repeat split; vm_compute; reflexivity. Qed.
+Example ex_components : components_ok s_base1 [104; 116; 116; 112]%N (Some [97]%N) [47; 98; 47; 99; 47; 100]%N (Some [101]%N) (Some [102; 63; 103]%N) = true
+  /\ shares_root_ok s_base1 [104; 116; 116; 112; 58; 47; 47; 97; 47; 98; 47; 80; 49]%N 1 = true.
+Proof. split; vm_compute; reflexivity. Qed.
+
 Print Assumptions relativize_sound.
 Print Assumptions relativize_same_path_noquery.
 Print Assumptions relativize_no_panic.
@@ -136,3 +160,8 @@ Print Assumptions relativize_prefix_refuted_base_is_prefix.
 Print Assumptions relativize_prefix_refuted_query_dropped.
 Print Assumptions relativize_prefix_refuted_authority_prefix.
 Print Assumptions relativize_prefix_refuted_panic.
+Print Assumptions relativize_some_shares_root.
+Print Assumptions relativize_root_differs_none.
+Print Assumptions relativize_scheme_differs_none.
+Print Assumptions relativize_authority_differs_none.
+Print Assumptions components_recompose.
